@@ -28,7 +28,7 @@ pub struct C15Case {
     pub yield_seed: u64,
     pub nonblocking_share: u8,
     pub overlay_share: u8,
-    /// Pinned reproduction of known finding KF-C15-1 (never generated).
+    /// Finish the newer session while the same thread still holds an older one (KF-C15-1 / FX-C15-1; generated since the repair).
     #[serde(default)]
     pub self_deadlock_probe: bool,
 }
@@ -584,8 +584,9 @@ impl Check for C15 {
             any::<u64>(),
             prop::sample::select(vec![0u8, 30, 60, 100]),
             prop::sample::select(vec![0u8, 30, 60]),
+            any::<bool>(),
         )
-            .prop_map(|(cfg, seed, readers, writers, iters, rollbacks, yield_seed, nonblocking_share, overlay_share)| C15Case {
+            .prop_map(|(cfg, seed, readers, writers, iters, rollbacks, yield_seed, nonblocking_share, overlay_share, older_first)| C15Case {
                 cfg,
                 seed,
                 readers,
@@ -595,7 +596,9 @@ impl Check for C15 {
                 yield_seed,
                 nonblocking_share,
                 overlay_share,
-                self_deadlock_probe: false,
+                // since FX-C15-1: in half of the cases the deterministic sub-scenario finishes a session while the
+                // same thread keeps an OLDER session alive (used to block forever with warm_up on)
+                self_deadlock_probe: older_first,
             })
             .boxed()
     }
